@@ -160,9 +160,12 @@ def neighbours(params):
     col = params.get("collide") or []
     if len(col) == 2:
         pairs.insert(0, (os.path.basename(col[0]), os.path.basename(col[1])))
+    pairs.append(("fold1/results.tsv", "fold2/results.tsv"))  # same file name in different directories
     for na, nb in pairs:
       with tempfile.TemporaryDirectory() as d:
         a, b = os.path.join(d, na), os.path.join(d, nb)
+        for x_ in (a, b):
+            os.makedirs(os.path.dirname(x_), exist_ok=True)
         ag1 = A.Panoptica_Aggregator(_evaluator(), a)
         ag2 = A.Panoptica_Aggregator(_evaluator(), b)
         p, r = SUBJ["s0"]
@@ -175,6 +178,31 @@ def neighbours(params):
             bb = check_final(real, ["s0", "s1"])
             bad += [f"[{nm} next to {na if nm == nb else nb}] {x}" for x in bb]
     return {"violated": bool(bad), "problems": bad[:4], "witness_class": WC_TMP if any("[b.tsv" in x or "[a.tsv next to b.tsv" in x for x in bad) else None}
+
+
+def shared_evaluator(params):
+    """two aggregators sharing one evaluator: constructing / using the second one does not change what the first one records"""
+    serial_pools()
+    import panoptica.panoptica_aggregator as A
+    from panoptica import Panoptica_Evaluator, InputType
+    from panoptica.metrics import Metric
+    bad = []
+    with tempfile.TemporaryDirectory() as d:
+        ev = Panoptica_Evaluator(expected_input=InputType.MATCHED_INSTANCE, instance_metrics=[Metric.DSC, Metric.IOU], global_metrics=[], save_group_times=True)
+        a1 = A.Panoptica_Aggregator(ev, os.path.join(d, "a.tsv"), log_times=True)
+        p, r_ = SUBJ["s0"]
+        a1.evaluate(p.copy(), r_.copy(), "s0")
+        A.Panoptica_Aggregator(ev, os.path.join(d, "b.tsv"))          # a sibling with other options on the same evaluator
+        a1.evaluate(p.copy(), r_.copy(), "s1")
+        rows = read_rows(os.path.join(d, "a.tsv"))
+        head = rows[0]
+        tcols = [i for i, h in enumerate(head) if h.endswith("computation_time")]
+        for row in rows[1:]:
+            if len(row) != len(head):
+                bad.append(f"row {row[0]} has {len(row)} cells, header {len(head)}")
+            elif any(row[i] == "" for i in tcols) and not any(rows[1][i] == "" for i in tcols):
+                bad.append(f"row {row[0]}: computation_time recorded for the first subject but blank after a sibling aggregator was constructed")
+    return {"violated": bool(bad), "problems": bad[:3]}
 
 
 def header_order(params):
@@ -251,7 +279,7 @@ def bounded(params):
     serial_pools()
     tier, seed = params.get("tier", "quick"), int(params.get("seed", 0))
     failures, evals = [], 0
-    for kind, fn in (("restart", restart), ("crash", crash), ("neighbours", neighbours), ("header_order", header_order), ("quoted_names", quoted_names), ("hashseed", hashseed)):
+    for kind, fn in (("restart", restart), ("crash", crash), ("neighbours", neighbours), ("header_order", header_order), ("quoted_names", quoted_names), ("hashseed", hashseed), ("shared_evaluator", shared_evaluator)):
         res = fn({})
         evals += 1
         if res["violated"]:
